@@ -229,6 +229,57 @@ def resizeChecksFirst (mprof : Profile.Prof) : Bool :=
 def memoryProfileOld : Profile.Prof := [
   ("String_Resize", [(.ite, "header(self)->alloc is (var)AllocStack or header(self)->alloc is (var)AllocStatic"), (.thr, "ValueError"), (.fin, ""), (.mut, "realloc"), (.mut, "val="), (.ite, "n > m"), (.mut, "memset"), (.els, ""), (.mut, "val="), (.fin, ""), (.ite, "s->val is NULL"), (.thr, "OutOfMemoryError"), (.fin, "")])]
 
+/-! ### `Table_Set`: the arguments are validated before the slot array is replaced
+
+`Table_Set` is in `unorderedFns` for two benign reasons (the slot-less rehash, the swap-space writes of `Table_Set_Move`), so
+`Profile.ordered` does not speak about it.  What the model's `Tab.set` / `Tab.moves` depend on is read here from the generated token
+lists directly: on a table that has slots nothing is mutated in front of the call of `Table_Set_Move`, and `Table_Set_Move` casts the
+key and the value before its first mutation — a refused `set` cannot have rehashed the table into a new block. -/
+
+/-- the rest of a token list after the block that was just entered (`if` / loop) is closed: by its `fin`, or by its `els` (the
+    `else` branch is then kept: it is what runs when the guard is false) -/
+def skipBlock : Nat → List Profile.Tok → List Profile.Tok
+  | _, [] => []
+  | d, (k, _) :: ts =>
+    match k, d with
+    | .fin, 0 => ts
+    | .els, 0 => ts
+    | .fin, d + 1 => skipBlock d ts
+    | .ite, d => skipBlock (d + 1) ts
+    | .loop, d => skipBlock (d + 1) ts
+    | _, d => skipBlock d ts
+
+/-- the tokens in front of the first `call f`, the blocks `if (g) …` left out (`g` is known to be false); `none`: `f` is not
+    called (or the fuel ran out) -/
+def beforeCall (f g : String) : Nat → List Profile.Tok → Option (List Profile.Tok)
+  | 0, _ => none
+  | _ + 1, [] => none
+  | fuel + 1, (k, x) :: ts =>
+    if k = .call ∧ x = f then some []
+    else if k = .ite ∧ x = g then beforeCall f g fuel (skipBlock 0 ts)
+    else (beforeCall f g fuel ts).map ((k, x) :: ·)
+
+/-- a token that writes to the object -/
+def Profile.writes (t : Profile.Tok) : Bool := t.1 = .mut || t.1 = .asg
+
+/-- **`Table_Set` validates before it grows.**  With `if (t->nslots is 0) { … }` left out, no token of `Table_Set` in front of the call
+    of `Table_Set_Move` writes to the table; and the tokens of `Table_Set_Move` in front of its first write contain the `cast` of the
+    key and the `cast` of the value.  `false` also when either function is missing or `Table_Set_Move` is not called. -/
+def tableSetValidatesFirst (prof : Profile.Prof) : Bool :=
+  match prof.lookup "Table_Set", prof.lookup "Table_Set_Move" with
+  | some s, some m =>
+    (match beforeCall "Table_Set_Move" "t->nslots is 0" (s.length + 1) s with
+     | some pre => pre.all (fun t => !Profile.writes t)
+     | none => false)
+    && (m.takeWhile (fun t => !Profile.writes t)).count (.call, "cast") = 2
+  | _, _ => false
+
+/-- the profile with `Table_Set` rewritten to make room first (`new_size = Table_Ideal_Size(nitems + 1)`; rehash when it exceeds
+    `nslots`; then `Table_Set_Move`) — the shape `tableSetValidatesFirst` exists to refuse -/
+def profileGrowFirst (prof : Profile.Prof) : Profile.Prof :=
+  prof.map (fun p => if p.1 = "Table_Set" then
+    ("Table_Set", [(.ite, "new_size > t->nslots"), (.mut, "Table_Rehash"), (.fin, ""), (.call, "Table_Set_Move")]) else p)
+
 /-- `assign(slot, obj)` for a slot that is itself a container is the container's own `Assign` member -/
 def IK.assignFn : IK → String
   | .arr => "Array_Assign" | .lst => "List_Assign" | .tab => "Table_Assign"
